@@ -185,6 +185,51 @@ def step_by_step(ctx, seed):
             ctx.count("step_by_step_runs")
 
 
+def continued_run(ctx, seed):
+    """a delay simulation continued in a second leg from the first leg's final state and the queue it returned: what was
+    pending at the end of leg 1 arrives in leg 2 at its own firing time plus delay.  X -> (fixed delay 12) Y at rate 50 per
+    molecule, 20 X: every firing happens before t = 1, so Y is 0 up to t = 11.9 and 20 from t = 13.1 on; legs 0..10, 10..20."""
+    from bioscrape.types import Model
+    from bioscrape.simulator import ModelCSimInterface, DelaySSASimulator, DelayVolumeSSASimulator, ArrayDelayQueue
+    from bioscrape.types import Volume
+    from bioscrape.random import py_seed_random
+    for kind in ("delay", "delayvolume"):
+        for qlen in (400, 256, 201):
+            case = {"scenario": "continued delay simulation", "simulator": kind, "queue_slots": qlen, "seed": seed}
+            ctx.begin_case(case)
+            M = Model(species=["X", "Y"], reactions=[(["X"], [], "massaction", {"k": 50.0}, "fixed", [], ["Y"], {"delay": 12.0})],
+                      initial_condition_dict={"X": 20, "Y": 0})
+            I = ModelCSimInterface(M)
+            I.py_set_dt(0.1)
+            q = ArrayDelayQueue.setup_queue(1, qlen, 0.1)
+            py_seed_random(int(seed))
+            T1, T2 = np.linspace(0, 10.0, 101), np.linspace(10.0, 20.0, 101)
+
+            def leg(T_, q_):
+                if kind == "delay":
+                    return DelaySSASimulator().py_delay_simulate(I, q_, T_)
+                v = Volume(); v.py_set_volume(1.0)
+                return DelayVolumeSSASimulator().py_delay_volume_simulate(I, q_, v, T_)
+            r1 = leg(T1, q)
+            rows1 = np.array(r1.py_get_result(), dtype=float)
+            I.py_set_initial_state(rows1[-1].copy())
+            I.py_set_initial_time(10.0)
+            r2 = leg(T2, r1.py_get_delay_queue())
+            rows2 = np.array(r2.py_get_result(), dtype=float)
+            ctx.evaluated()
+            yi = M.get_species_list().index("Y")
+            y = np.concatenate([rows1[:, yi], rows2[:, yi]])
+            t = np.concatenate([T1, T2])
+            early = [float(a) for a, b in zip(t, y) if a <= 11.9 and b != 0]
+            late = [float(a) for a, b in zip(t, y) if a >= 13.1 and b != 20]
+            if early or late:
+                ctx.violation("delivery-time/continued-run", "a %s simulation continued with the queue it returned (delay 12, all firings before t=1, %d slots): "
+                              "Y reported before t=11.9 at %s, not all 20 delivered at t=%s" % (kind, qlen, early[:3], late[:3]),
+                              dict(case, Y_leg2=rows2[::10, yi].tolist()))
+                return
+            ctx.count("continued_runs")
+
+
 def sampler_corr(ctx, rng):
     """Delay samplers: the model's draws equal py_normal_rv / py_gamma_rv / py_uniform_rv bit for bit; KS support."""
     from bioscrape.random import py_seed_random, py_normal_rv, py_gamma_rv, py_uniform_rv, py_exponential_rv
@@ -265,6 +310,8 @@ def run(ctx):
         accounting(ctx, spec, np.linspace(0, 5.0, 501), seeds[0])
         late_grid(ctx, spec, seeds[0])
         step_by_step(ctx, seeds[0])
+        if i % 4 == 0:
+            continued_run(ctx, seeds[0])
         # fixed delays placed relative to the simulated horizon (the queue has as many slots as grid points):
         # just inside, at, and just beyond it
         fixed = [r for r in spec["reactions"] if (r.get("delay") or {}).get("type") == "fixed"]
